@@ -184,6 +184,8 @@ def parse_type_prefix(s):
 def type_bits(t):
     t = t.strip()
     if t == 'ptr': return 64
+    if t == 'float': return 32      # floats are carried as their IEEE-754 bit patterns
+    if t == 'double': return 64
     m = re.match(r'i(\d+)$', t)
     if m: return int(m.group(1))
     raise ValueError('bits of ' + t)
@@ -195,6 +197,8 @@ def type_layout(t):
     t = t.strip()
     if t in TYPEDEFS: return type_layout(TYPEDEFS[t])
     if t == 'ptr': return 8, 8
+    if t == 'float': return 4, 4
+    if t == 'double': return 8, 8
     m = re.match(r'i(\d+)$', t)
     if m:
         n = (int(m.group(1)) + 7) // 8
@@ -344,7 +348,18 @@ class Executor:
                     t, v = parse_type_prefix(el); out.append(self.val(st, t, v))
                 return out
             raise Outcome('unsupported', 'agg const ' + tok)
-        if ty in ('float', 'double'): raise Outcome('unsupported', 'float value')
+        if ty in ('float', 'double'):
+            import struct
+            if tok in ('undef', 'poison', 'zeroinitializer'): return bv(0, type_bits(ty))
+            try:
+                if tok.startswith('0x'):     # LLVM prints non-trivial constants as the bit pattern of the value as a double
+                    d = struct.unpack('<d', struct.pack('<Q', int(tok, 16)))[0]
+                else:
+                    d = float(tok)
+            except Exception:
+                raise Outcome('unsupported', 'float const ' + tok)
+            if ty == 'double': return bv(struct.unpack('<Q', struct.pack('<d', d))[0], 64)
+            return bv(struct.unpack('<I', struct.pack('<f', d))[0], 32)
         w = type_bits(ty)
         if tok == 'true': return bv(1, 1)
         if tok == 'false': return bv(0, 1)
@@ -386,7 +401,10 @@ class Executor:
         if ty == 'ptr':
             c = cells[0]
             if isinstance(c, tuple) and c[0] == 'p': return c[1]
-            raise Outcome('unsupported', 'ptr load of non-ptr bytes')
+            if any(isinstance(x, tuple) for x in cells): raise Outcome('unsupported', 'ptr load of mixed bytes')
+            # pointer-typed load of integer / uninitialised bytes (rustc loads the payload of a niche-encoded enum before it
+            # tests the niche): an address inside the null object -- comparable, never dereferenceable
+            return Ptr(0, self.assemble(cells, 'i64'))
         if any(c is None for c in cells):
             # LLVM semantics: loading uninitialised memory yields undef, which is UB only under !noundef (rustc
             # emits speculative loads of enum payloads that a later `select` discards). Model undef as a fresh
@@ -396,7 +414,13 @@ class Executor:
             self._undef_n = getattr(self, '_undef_n', 0) + 1
             w = type_bits(ty)
             return bv(0, w) if self.concrete else z3.BitVec('undef!%d' % self._undef_n, w)
-        if any(isinstance(c, tuple) for c in cells): raise Outcome('unsupported', 'int load of ptr bytes')
+        if any(isinstance(c, tuple) for c in cells):
+            c0 = cells[0]
+            if ty == 'i64' and len(cells) == 8 and all(isinstance(c, tuple) and c[0] == 'p' and c[1] is c0[1] and c[2] == k for k, c in enumerate(cells)) \
+               and not isinstance(c0[1].obj, tuple):
+                pp = c0[1]      # integer view of a stored pointer: same address model as ptrtoint
+                return full_simp(bv(0x10000 * pp.obj, 64) + pp.off)
+            raise Outcome('unsupported', 'int load of ptr bytes')
         w = type_bits(ty)
         c0 = cells[0]
         if isinstance(c0, list) and c0[2] == 0 and c0[1].size() == w and len(cells) * 8 >= w and all(isinstance(c, list) and c[1] is c0[1] and c[2] == k for k, c in enumerate(cells)):
@@ -579,6 +603,10 @@ class Executor:
     ICMP = {'eq': lambda a,b: a==b, 'ne': lambda a,b: a!=b, 'ult': z3.ULT, 'ule': z3.ULE, 'ugt': z3.UGT, 'uge': z3.UGE,
             'slt': lambda a,b: a<b, 'sle': lambda a,b: a<=b, 'sgt': lambda a,b: a>b, 'sge': lambda a,b: a>=b}
 
+    @staticmethod
+    def to_fp(v, ty):
+        return z3.fpBVToFP(v, z3.Float32() if ty == 'float' else z3.Float64())
+
     def exec_ins(self, st, fr, ins):
         env = fr['env']
         self._noundef = '!noundef' in ins
@@ -647,8 +675,48 @@ class Executor:
             base = bv(0, 64) if p.obj == 0 else bv(0x10000 * p.obj, 64)
             v = full_simp(base + p.off)
             env[dest] = v if w1 == 64 else simp(z3.Extract(w1 - 1, 0, v)); return
-        if op in ('inttoptr', 'bitcast', 'addrspacecast'):
+        if op == 'bitcast':
+            ty, r2 = parse_type_prefix(rest)
+            vtok, toty = r2.split(' to ')
+            if ty != 'ptr' and toty.strip() != 'ptr' and not ty.startswith(('<', '[', '{')) and type_bits(ty) == type_bits(toty):
+                env[dest] = self.val(st, ty, vtok); return      # same-size scalar reinterpretation (floats are bit patterns here)
             raise Outcome('unsupported', op)
+        if op in ('inttoptr', 'addrspacecast'):
+            raise Outcome('unsupported', op)
+        if op == 'fcmp':
+            rest = re.sub(r'^((nnan|ninf|nsz|arcp|contract|afn|reassoc|fast)\s+)+', '', rest)
+            pred, r2 = rest.split(None, 1)
+            ty, r3 = parse_type_prefix(r2)
+            a, b = split_top(r3)
+            fa, fb = self.to_fp(self.val(st, ty, a), ty), self.to_fp(self.val(st, ty, b), ty)
+            uno = z3.Or(z3.fpIsNaN(fa), z3.fpIsNaN(fb))
+            base = {'eq': z3.fpEQ, 'gt': z3.fpGT, 'ge': z3.fpGEQ, 'lt': z3.fpLT, 'le': z3.fpLEQ}
+            if pred == 'ord': c = z3.Not(uno)
+            elif pred == 'uno': c = uno
+            elif pred == 'true': c = z3.BoolVal(True)
+            elif pred == 'false': c = z3.BoolVal(False)
+            elif pred in ('one', 'une'):
+                ne = z3.Not(z3.fpEQ(fa, fb))
+                c = z3.And(z3.Not(uno), ne) if pred == 'one' else z3.Or(uno, ne)
+            elif pred[0] == 'o' and pred[1:] in base: c = z3.And(z3.Not(uno), base[pred[1:]](fa, fb))
+            elif pred[0] == 'u' and pred[1:] in base: c = z3.Or(uno, base[pred[1:]](fa, fb))
+            else: raise Outcome('unsupported', 'fcmp ' + pred)
+            cs = z3.simplify(c)
+            env[dest] = from_bool(cs if (z3.is_true(cs) or z3.is_false(cs)) else c); return
+        if op == 'uitofp':
+            rest = re.sub(r'^(nneg\s+)', '', rest)
+            ty, r2 = parse_type_prefix(rest)
+            vtok, toty = r2.split(' to ')
+            v = self.val(st, ty, vtok)
+            srt = z3.Float32() if toty.strip() == 'float' else z3.Float64()
+            env[dest] = simp(z3.fpToIEEEBV(z3.fpToFPUnsigned(z3.RNE(), v, srt))); return
+        if op in ('fadd', 'fsub', 'fmul', 'fdiv'):
+            rest = re.sub(r'^((nnan|ninf|nsz|arcp|contract|afn|reassoc|fast)\s+)+', '', rest)
+            ty, r2 = parse_type_prefix(rest)
+            a, b = split_top(r2)
+            fa, fb = self.to_fp(self.val(st, ty, a), ty), self.to_fp(self.val(st, ty, b), ty)
+            f = {'fadd': z3.fpAdd, 'fsub': z3.fpSub, 'fmul': z3.fpMul, 'fdiv': z3.fpDiv}[op](z3.RNE(), fa, fb)
+            env[dest] = simp(z3.fpToIEEEBV(f)); return
         if op == 'select':
             parts = split_top(rest)
             c = self.val(st, 'i1', parts[0].split()[-1])
@@ -856,6 +924,33 @@ class Executor:
                 n = n.as_long()
                 if do.as_long() + n > len(st.mem.objs[d.obj]): raise Outcome('ub', 'oob memset')
                 st.mem.objs[d.obj][do.as_long():do.as_long()+n] = [v] * n; return
+            m = re.match(r'llvm\.fabs\.f(32|64)$', name)
+            if m:
+                w = int(m.group(1)); env[dest] = simp(args[0][1] & bv((1 << (w - 1)) - 1, w)); return
+            m = re.match(r'llvm\.is\.fpclass\.f(32|64)$', name)
+            if m:
+                w = int(m.group(1)); v = args[0][1]; mask = args[1][1]
+                if not z3.is_bv_value(mask): raise Outcome('unsupported', name)
+                mask = mask.as_long()
+                x = self.to_fp(v, 'float' if w == 32 else 'double')
+                mant = 23 if w == 32 else 52
+                quiet = z3.Extract(mant - 1, mant - 1, v) == bv(1, 1)
+                neg, pos = z3.fpIsNegative(x), z3.fpIsPositive(x)
+                tests = [z3.And(z3.fpIsNaN(x), z3.Not(quiet)), z3.And(z3.fpIsNaN(x), quiet),
+                         z3.And(z3.fpIsInf(x), neg), z3.And(z3.fpIsNormal(x), neg), z3.And(z3.fpIsSubnormal(x), neg), z3.And(z3.fpIsZero(x), neg),
+                         z3.And(z3.fpIsZero(x), pos), z3.And(z3.fpIsSubnormal(x), pos), z3.And(z3.fpIsNormal(x), pos), z3.And(z3.fpIsInf(x), pos)]
+                c = z3.Or([t for k, t in enumerate(tests) if mask >> k & 1] or [z3.BoolVal(False)])
+                env[dest] = from_bool(c); return
+            m = re.match(r'llvm\.fpto([us])i\.sat\.i(\d+)\.f(32|64)$', name)
+            if m:
+                signed, n, fw = m.group(1) == 's', int(m.group(2)), int(m.group(3))
+                if signed: raise Outcome('unsupported', name)
+                x = self.to_fp(args[0][1], 'float' if fw == 32 else 'double')
+                srt = z3.Float32() if fw == 32 else z3.Float64()
+                hi = z3.FPVal(float(2 ** n), srt)
+                r = z3.If(z3.Or(z3.fpIsNaN(x), z3.fpLEQ(x, z3.FPVal(0.0, srt))), bv(0, n),
+                          z3.If(z3.fpGEQ(x, hi), bv((1 << n) - 1, n), z3.fpToUBV(z3.RTZ(), x, z3.BitVecSort(n))))
+                env[dest] = simp(r); return
             if name.startswith('llvm.trap') or name.startswith('llvm.ubsantrap'):
                 raise Outcome('panic:trap', fr['fn'].name[-60:] + ':' + fr['block'])
             raise Outcome('unsupported', name)
